@@ -13,6 +13,7 @@ O: the real outcome (global values compared structurally, or error class) must b
 import json
 
 import semcmp
+import largelib
 import semlib
 import vlib
 
@@ -25,8 +26,8 @@ def classify(prog, detail):
 def run(ck, families=None):
     quick = ck.quick()
     matrices = [("m-ops", 0), ("m-index", 0), ("m-builtin", 0), ("m-call", 0), ("m-closure", 0), ("m-assign", 0)]
-    fams = families or ([("smoke", 0), ("random", 400), ("random-clean", 200), ("alias", 300), ("modules", 60), ("shapes", 1500), ("scopes", 300), ("immut", 300), ("tailcalls", 0)] + matrices if quick
-                        else [("smoke", 0), ("random", 12000), ("random-clean", 8000), ("alias", 6000), ("modules", 3000), ("shapes", 0), ("dce", 5000), ("errs", 3000), ("scopes", 5000), ("immut", 5000), ("tailcalls", 0), ("variants", 1500)] + matrices)
+    fams = families or ([("smoke", 0), ("random", 400), ("random-clean", 200), ("random-minparens", 300), ("alias", 300), ("modules", 60), ("shapes", 1500), ("scopes", 300), ("immut", 300), ("tailcalls", 0)] + matrices if quick
+                        else [("smoke", 0), ("random", 12000), ("random-clean", 8000), ("random-minparens", 6000), ("alias", 6000), ("modules", 3000), ("shapes", 0), ("dce", 5000), ("errs", 3000), ("scopes", 5000), ("immut", 5000), ("tailcalls", 0), ("variants", 1500)] + matrices)
     progs = []
     for fam, n in fams:
         ps = semlib.generate(ck, fam, n)
@@ -72,6 +73,8 @@ def run(ck, families=None):
                          "the recorded run of the real VM is not a behaviour of TengoVM.tla: %s at event %s of %s (%s)\n%s" % (
                              o["why"], o.get("at"), o.get("n"), json.dumps(o.get("event"))[:200], p["src"]), {"program": p, "vm": o})
     ck.extra["vm_trace_verdicts"] = vstats
+    # programs beyond 64 KiB of code / 255 constants (every jump and constant operand needs its upper bytes): closed-form results
+    largelib.judge(ck, quick)
     ck.extra["verdicts"] = stats
     ck.extra["programs"] = len(progs)
     ck.rule = ("programs printed from the harness AST (smoke family + seeded random compositions); non-trivial = distinct source "
